@@ -8,11 +8,12 @@
 #include "vp.h"
 #include "vsrv.h"
 int sched_yield(void);
+void vp_sched_point(void);   /* thread model: the scheduler may preempt the calling thread here (system calls are interleaving points) */
 #define NL 2
 #define NC 6
 #define LFD0 200
 #define CFD0 210
-#define CCAP 8
+#define CCAP 384
 struct vlis { int used, listening, open; };
 struct vcon { int used, accepted, open, peer_closed, in_n, in_pos, out_n, lis; unsigned char in[CCAP], out[CCAP]; };
 static struct vlis L[NL];
@@ -89,6 +90,7 @@ long send(int fd, const void* buf, size_t size, int flags)
 	(void)flags;
 	struct vcon* c = CS(fd);
 	if (!c || !c->open) return -1;
+	vp_sched_point();
 	if (c->peer_closed) return -1;
 	for (size_t i = 0; i < size && c->out_n < CCAP; i++) c->out[c->out_n++] = ((const unsigned char*)buf)[i];
 	return (long)size;
@@ -128,4 +130,4 @@ int getaddrinfo(const char* host, const char* service, const void* hints, void**
 	return 0;
 }
 void freeaddrinfo(void* p) { (void)p; }
-int unlink(const char* p) { (void)p; return 0; }
+
